@@ -234,6 +234,49 @@ fn run(case: &Case, out: &mut Out) {
                         s.delivered.len(), s.sent_good.len()));
                 }
             }
+            // blocking-mode read with a short timeout (all bytes the case sends are
+            // already in the socket, so it never waits unless the frame is incomplete)
+            "read_b" => {
+                let s = st_.as_mut().unwrap();
+                s.chan.blocking().unwrap();
+                let r = s.chan.read_message_blocking_timeout(Some(std::time::Duration::from_millis(120)));
+                s.chan.nonblocking().unwrap();
+                if let Ok(m) = &r {
+                    s.delivered.push(m.encode_to_vec());
+                }
+                let mut t = msg_toks(&r);
+                t.extend(st(&s.chan));
+                out.obs(&t);
+            }
+            "write_b" => {
+                let s = st_.as_mut().unwrap();
+                let p = a[0].b();
+                let m = WorkerResponse::decode(p).expect("write payload must decode");
+                s.chan.blocking().unwrap();
+                let r = s.chan.write_message(&m);
+                s.chan.nonblocking().unwrap();
+                let mut got = vec![];
+                let mut tmp = [0u8; 65536];
+                loop {
+                    match s.peer.read(&mut tmp) {
+                        Ok(0) => break,
+                        Ok(n) => got.extend_from_slice(&tmp[..n]),
+                        Err(_) => break,
+                    }
+                }
+                s.peer_got.extend_from_slice(&got);
+                let mut t = match &r {
+                    Ok(()) => {
+                        s.written.extend_from_slice(&((p.len() + 8) as u64).to_le_bytes());
+                        s.written.extend_from_slice(p);
+                        vec![ts("ok")]
+                    }
+                    Err(e) => vec![ts("err"), ts(err_name(e))],
+                };
+                t.push(tb(&got));
+                t.extend(st(&s.chan));
+                out.obs(&t);
+            }
             // the main process's loop: the REAL bin/src/command/sessions.rs extract_messages
             "extract" => {
                 let s = st_.as_mut().unwrap();
